@@ -55,51 +55,86 @@ class OrderInterp(absint.Interp):
 
 
 def merge(R, ctx):
+    """group_local::should_merge as a decision function, by finite-domain evaluation."""
+    import itertools
+    from .. import peval
+    from ..peval import Enum, Struct, UNKNOWN
     rid = "C16.merge"
     lib = ctx.lib
-    R.rule(rid, "group_local::should_merge returns false whenever the first statement's value count is neither 0 nor equal to its variable "
-                "count (decision table over the three orderings); otherwise its answer is `next.values.all(|v| no variable of first found in v)`")
+    R.rule(rid, "group_local::should_merge, evaluated from its typed tree on `local <1..3 names> = <0..3 values>` followed by a declaration with "
+                "up to two values, for every choice of which next value mentions which declared name: the answer is false whenever the first "
+                "statement's value count is neither 0 nor its variable count (merging would shift which value initialises which variable), and "
+                "false whenever ANY value of the next statement (first, middle or last) mentions ANY variable of the first one")
     fn = lib.fn("rules::group_local::GroupLocalProcessor::should_merge")
     if not R.require(rid, "anchor:should_merge", fn is not None, "", "not found"):
         return
-    fa = ctx.an.fa(fn["path"])
-    for ordering in ("<", "=", ">"):
-        for zero in (True, False):
-            if zero and ordering == "<":
-                continue  # 0 values cannot exceed the variable count... vars < vals impossible when vals == 0
-            it = OrderInterp(fa, ordering, zero)
-            try:
-                paths = it.run(thir.body_of(fn))
-            except RuntimeError:
-                paths = []
-            rets = {p.ret for p in paths}
-            must_refuse = (ordering != "=") and not zero
-            if must_refuse:
-                ok = bool(paths) and rets == {False}
-                R.ob(rid, "should_merge|vars%svalues,values%s0" % (ordering, "=" if zero else "!="), ok, ctx.where(fn),
-                     "returns %s; must refuse (merging shifts which value initialises which variable)" % sorted(rets, key=str))
-            else:
-                ok = bool(paths) and False not in rets
-                R.ob(rid, "should_merge|vars%svalues,values%s0" % (ordering, "=" if zero else "!="), ok, ctx.where(fn), "continues to the usage test (%s)" % sorted(rets, key=str))
-    # the usage test
-    alls = [c for c in thir.calls(fn) if c.get("fname") == "all"]
-    ok_all = False
-    for c in alls:
-        srcs = [y.get("fname") for y in fa.source_calls(c["args"][0])]
-        clo = [a for a in c["args"] if a.get("k") == "Closure"]
-        if "iter_mut_values" in srcs or "iter_values" in srcs:
-            if clo:
-                body = clo[0]["body"]["body"]
-                visits = any(x.get("k") == "Call" and x.get("fname") == "visit_expression" for x in thir.walk(body))
-                neg = any(x.get("k") == "Unary" and x.get("op") == "Not" and any(y.get("fname") == "has_found_usage" for y in thir.walk(x) if y.get("k") == "Call") for x in thir.walk(body))
-                # every value must be scanned: no early `return`/literal result inside the closure, the visit is unconditional
-                early = [x for x in thir.walk(body) if x.get("k") == "Return" or (x.get("k") == "Lit" and x.get("v") in ("true", "false"))]
-                cond_visit = any(x.get("k") in ("If", "Match") and any(y.get("k") == "Call" and y.get("fname") == "visit_expression" for y in thir.walk(x)) for x in thir.walk(body))
-                ok_all = visits and neg and ("#param", 2) in fa.origins(c["args"][0]) and not early and not cond_visit
-    R.ob(rid, "should_merge|all-values-of-next-scanned", ok_all, ctx.where(fn), "`next.iter_mut_values().all(|e| { visit_expression(e, finder); !finder.has_found_usage() })`: %s" % ok_all)
-    col = [c for c in thir.calls(fn) if c.get("fname") in ("collect", "from_iter")]
-    ok_seed = any("iter_variables" in [y.get("fname") for y in fa.source_calls(c["args"][0])] and ("#param", 1) in fa.origins(c["args"][0]) for c in col)
-    R.ob(rid, "should_merge|finder-seeded-with-all-variables-of-first", ok_seed, ctx.where(fn), "FindVariables built from first.iter_variables(): %s" % ok_seed)
+    VA = "nodes::statements::local_assign::VariableAssignment"
+    TI = "nodes::typed_identifier::TypedIdentifier"
+    va = lib.adts.get(VA)
+    have = {f["name"] for v in va["variants"] for f in v["fields"]} if va else set()
+    if not R.require(rid, "anchor:VariableAssignment-fields", {"variables", "values"} <= have, ctx.adt_where(VA) if va else "", "fields of VariableAssignment: %s" % sorted(have)):
+        return
+    names_all = ["a", "b", "c"]
+    variants = [v["name"] for v in lib.adts[EXPR]["variants"]]
+    ID = "nodes::identifier::Identifier"
+
+    def ident(x):
+        # TypedIdentifier { name: Identifier { name: String } } (shape taken from the ADT metadata)
+        ti = lib.adts.get(TI)
+        inner_is_ident = any(f["name"] == "name" and ID in f.get("tys", "") for v in (ti["variants"] if ti else []) for f in v["fields"])
+        return Struct(TI, {"name": Struct(ID, {"name": x}) if inner_is_ident else x})
+    n = 0
+    bad_count, bad_usage, unknown = [], [], []
+    for nv in (1, 2, 3):
+        for nval in (0, 1, 2, 3):
+            decl = names_all[:nv]
+            first_vals = [Enum(EXPR, "Nil", {"#uses": ()}) for _ in range(nval)]
+            for nnext in (1, 2):
+              # which declared name each value of `next` mentions (None = none); the mentioning value takes every Expression kind
+              # once (a function value mentions a captured variable just as well as a call argument does)
+              for uses in itertools.product([None] + decl, repeat=nnext):
+                for kind in (variants if (nv, nval) in ((1, 1), (2, 0)) and any(uses) else ["Identifier"]):
+                    first = Struct(VA, {"variables": [ident(x) for x in decl], "values": list(first_vals)})
+                    nxt = Struct(VA, {"variables": [ident("z")], "values": [Enum(EXPR, kind if u else "Identifier", {"#uses": (u,) if u else ()}) for u in uses]})
+                    found = {}
+
+                    def hook(pe, path, fname, args, node):
+                        if fname == "visit_expression" and len(args) == 2 and isinstance(args[0], Enum) and "#uses" in args[0].fields:
+                            finder = args[1]
+                            seeded = finder if isinstance(finder, list) else (finder.fields.get("variables") if isinstance(finder, Struct) else None)
+                            if isinstance(seeded, peval.Iter):
+                                seeded = seeded.rest()
+                            if not isinstance(seeded, list):
+                                return UNKNOWN
+                            if set(args[0].fields["#uses"]) & set(seeded):
+                                found[id(finder)] = True
+                                if isinstance(finder, Struct) and "usage_found" in finder.fields:
+                                    finder.fields["usage_found"] = True
+                            return peval.UNIT
+                        if fname == "has_found_usage" and len(args) == 1 and isinstance(args[0], list):
+                            return found.get(id(args[0]), False)
+                        return NotImplemented
+                    pe = peval.PEval(lib, ctx.an, hook)
+                    try:
+                        v = pe.call_fn(fn, [Struct("#Processor", {}), first, nxt])
+                    except peval.OutOfFuel:
+                        v = UNKNOWN
+                    n += 1
+                    case = "local %s = <%d values>; next values mention %s (as Expression::%s)" % (",".join(decl), nval, list(uses), kind)
+                    must_refuse_count = nval != 0 and nval != nv
+                    must_refuse_usage = any(u is not None for u in uses)
+                    if v is UNKNOWN or not isinstance(v, bool):
+                        unknown.append((case, pe.unknown_reasons[:1]))
+                    elif must_refuse_count and v is not False:
+                        bad_count.append(case)
+                    elif must_refuse_usage and v is not False:
+                        bad_usage.append(case)
+    R.require(rid, "floor:cells", n >= 100, ctx.where(fn), "%d cells evaluated" % n)
+    R.ob(rid, "should_merge|table-established", not unknown, ctx.where(fn), "every cell evaluates to a boolean" if not unknown else "not established for %s %s" % unknown[0])
+    R.ob(rid, "should_merge|unbalanced-first-declaration-refused", not bad_count, ctx.where(fn),
+         "refused whenever values != 0 and values != variables" if not bad_count else "merge accepted for: %s" % bad_count[0])
+    R.ob(rid, "should_merge|all-values-of-next-scanned", not bad_usage, ctx.where(fn),
+         "refused whenever any value of the next statement mentions a declared variable" if not bad_usage else "merge accepted for: %s" % bad_usage[0])
     # the merge itself is guarded
     fs = lib.fn("rules::group_local::GroupLocalProcessor::filter_statements")
     if R.require(rid, "anchor:filter_statements", fs is not None, "", "not found"):
